@@ -367,6 +367,10 @@ def _run(case, out, tmp):
             _, _, where, name, vi = op
             if st_.value(vi) is None:
                 continue
+            if vi >= 10 and id(st_.value(vi)) not in st_.carrying:
+                # a module / Excel range whose spec is gone is not a value a model can hold (it cannot be
+                # saved): binding it again is outside the generated domain
+                continue
             try:
                 setattr(st_.space(where), name, st_.value(vi))
             except Exception:
